@@ -3,19 +3,67 @@ from __future__ import annotations
 
 import ast
 import asyncio
+import collections
+import datetime
+import decimal
 import itertools
 
+import translate.native_guards
 from harness import core
+from harness import lexcommon as lc
 from harness.core import Atom
 
 ID = "C34"
 LEAN_MODULES = ["JinjaV.Props.C34"]
+GEN = [translate.native_guards.gen]
 LEVEL = "proof"
 TRUSTED = [
     "Model/Native.lean is a hand transcription of nativetypes.native_concat, tied by this correspondence run",
     "ast.literal_eval / ast.parse are Python's (a parameter of the theorem)",
+    "Model/NativeTpl.lean (which pieces a template of the small statement language yields: Lexer.wrap, Parser.subparse's "
+    "Output grouping, the native generator's folding of adjacent template data) is a hand model over the lexer model "
+    "Model/Lex.lean (tied by C39/C11/C12); it is tied by comparing its piece list with what the compiled root function yields",
 ]
-ASSUMPTIONS = ["pieces reach native_concat as a list or a generator (the two ways NativeTemplate calls it)"]
+ASSUMPTIONS = ["pieces reach native_concat as a list or a generator (the two ways NativeTemplate calls it)",
+               "template-level cases: valid lexer configuration; expressions are names bound by the render data, {% set %} or a "
+               "macro parameter; a macro call is modelled where its body yields a single non-string value"]
+CLAIM = dict(
+    category="proof",
+    technique="Lean 4 proof that the model of native_concat equals the documented result for every piece list, both call forms "
+              "and any literal evaluator; proof over the lexer model that no empty data token exists and, over the guards READ "
+              "from lexer.py/parser.py, that an empty data token cannot become a piece + exhaustive small piece lists, "
+              "end-to-end native renders, and generated single-expression templates surrounded by material that compiles to "
+              "nothing, compared piece by piece with the Lean template model",
+    text="Theorems (Props/C34.lean): native_concat_spec — for every list of pieces (strings and non-string values), arriving as "
+         "list or generator, and every literal evaluator, the transcription of native_concat returns None for no output, the "
+         "value itself for a single non-string value, and otherwise the literal the concatenated text denotes or the text; "
+         "single_piece_template_returns_value — a template whose pieces (lexer model -> Lexer.wrap -> subparse/Output "
+         "grouping -> native generator) are one non-string value renders to that value; lex_data_nonempty — the lexer model "
+         "never emits an empty data token, for every configuration and source (whitespace removed by '-', lstrip_blocks or "
+         "trim_blocks leaves no token); source_guards_present / empty_data_invisible — with the guards read from the source on "
+         "every run (data in lexer.ignore_if_empty, the emptiness test in Lexer.tokeniter is made on the value that is "
+         "yielded, Parser.subparse skips a data token with an empty value) at least one stage drops an empty data token, and "
+         "with the parser's guard it changes no piece; pieces_independent_of_parser_guard — because the lexer stage delivers "
+         "none, the pieces of every source are the same with and without the parser's guard (either guard alone suffices). "
+         "Tie: all "
+         "piece lists of length <3 (quick) / <4 (thorough) over 21 text pieces and 12 values against the real function "
+         "(identity checked with `is`), random longer lists, render-modify-render histories, 24 templates x value pairs "
+         "through render / render_async / render in an async native environment, native environments with a finalize hook "
+         "against a segment-level reference; and generated templates = one carrier (plain {{ x }}, conditional output with "
+         "and without else, {% set %} + output, native macro, macro with a conditional body) plus 0-3 pieces of material "
+         "that compiles to nothing (comments, empty raw blocks, {% if true %}{% endif %}, dead branches, {% set %}, line "
+         "statements, line comments) with whitespace runs between all tags and '-'/'+'/no sign on every tag side, under 10 "
+         "lexer configurations (trim_blocks, lstrip_blocks, keep_trailing_newline, line prefixes, ERB/PHP delimiters), with 27 "
+         "values (custom objects, Decimal, set(), frozenset, bytes, nan/inf, date, namedtuple, Undefined, range, strings that "
+         "look like literals, plain literals): the pieces yielded by the compiled root function must equal the model's piece "
+         "list (strings by value, other values by identity: an extra empty-string piece is a difference) and render, "
+         "render_async and render in an async-enabled environment must return the documented result of those pieces.",
+    note="Trusted: Lean kernel; hand models Model/Native.lean and Model/NativeTpl.lean (tied by the runs above); Model/Lex.lean "
+         "(tied by C39); ast.literal_eval/parse are a parameter (Python's); the native code generator is covered end-to-end "
+         "only. The guards translator (translate/native_guards.py) reads three syntactic facts; a behaviour-preserving rewrite of "
+         "those lines is reported as a broken tie (no failing input) unless the generated templates find a concrete one.",
+    design_ref="§5 C34, design/C34.md",
+)
 
 
 class Opaque:
@@ -119,15 +167,18 @@ def run(ctx, res):
                     res.violate("C34:unit:result-shared", f"native_concat of {vals!r} returned {again!r} after the previous result "
                                 f"was modified by its caller; documented {lit(rep[1][1])!r}", {"pieces": [repr(v) for v in vals]})
     e2e = run_e2e(ctx, res, jinja2, NativeEnvironment)
+    tpl = run_tpl(ctx, res, jinja2, NativeEnvironment)
     res.coverage.update({
-        "evaluations": 2 * len(cases) + e2e["renders"],
-        "distinct_nontrivial": len({tuple(c) for c in cases if c}) + e2e["distinct"],
+        "evaluations": 2 * len(cases) + e2e["renders"] + tpl["renders"],
+        "distinct_nontrivial": len({tuple(c) for c in cases if c}) + e2e["distinct"] + tpl["distinct"],
         "rule": (f"L-unit: every piece list of length < {ctx.pick(3, 4)} over 21 text pieces and 12 non-string values "
                  "(exhaustive) plus random lists up to 8, as list and as generator, against the real native_concat with "
-                 "Python's literal_eval as the parameter; L-e2e: " + e2e["rule"]),
-        "samples": [{"pieces": [repr(val(i)) for i in cases[700]]}, {"pieces": [repr(val(i)) for i in cases[-1]]}] + e2e["samples"],
+                 "Python's literal_eval as the parameter; L-e2e: " + e2e["rule"] + "; L-tpl: " + tpl["rule"]),
+        "samples": [{"pieces": [repr(val(i)) for i in cases[700]]}, {"pieces": [repr(val(i)) for i in cases[-1]]}] + e2e["samples"]
+        + tpl["samples"],
         "documented_result_kinds": kinds,
         "e2e": {k: v for k, v in e2e.items() if k not in ("samples", "rule")},
+        "tpl": {k: v for k, v in tpl.items() if k not in ("samples", "rule")},
     })
 
 
@@ -255,5 +306,327 @@ def run_e2e(ctx, res, jinja2, NativeEnvironment):
                     "strings that do or do not parse) through render, render_async and render in an async-enabled native environment"}
 
 
+# ---------------------------------------------------------------------------------------------
+# templates: one expression + material that compiles to nothing (Model/NativeTpl.lean over the lexer model)
+# ---------------------------------------------------------------------------------------------
+
+P = collections.namedtuple("P", "x")
+
+
+def tpl_values(jinja2):
+    """values a template may return; most have a str() that does not literal_eval back to the same object"""
+    return [Opaque("q"), Opaque("1"), Opaque("[1, 2]"), Opaque(""), decimal.Decimal("1.50"), set(), frozenset([1]), b"x",
+            float("nan"), float("inf"), datetime.date(2020, 1, 2), P(1), jinja2.Undefined(name="u"), 1j, range(3), {1, 2},
+            "1", "[1, 2]", "None", " 7", "x", "",
+            5, [1, 2], None, {"a": 1}, True]
+
+
+N_NONLITERAL = 16     # the first 16 values above
+
+TPL_CONFIGS = ["default", "trim", "lstrip", "trim+lstrip", "keepnl", "line", "line-pct", "line-keep", "erb", "php"]
+GAPS = [" ", "\n", "  ", "\n  ", " \n", "\t", "\n\n", " \n ", "\n\t\n"]
+
+# carriers: the one expression whose value the template returns (x, w: values; c: bool)
+CARRIERS = {
+    "var": [("v", "x")],
+    "cond": [("b", "if c"), ("v", "x"), ("b", "endif")],
+    "cond-else": [("b", "if c"), ("v", "x"), ("b", "else"), ("v", "w"), ("b", "endif")],
+    "set": [("b", "set y = x"), ("v", "y")],
+    "set-in-if": [("b", "if true"), ("b", "set y = x"), ("b", "endif"), ("v", "y")],
+    "macro": [("b", "macro m(v)"), ("v", "v"), ("b", "endmacro"), ("v", "m(x)")],
+    "macro-cond": [("b", "macro m(v)"), ("b", "if c"), ("v", "v"), ("b", "else"), ("v", "v"), ("b", "endif"), ("b", "endmacro"),
+                   ("v", "m(x)")],
+}
+
+
+def nothing_material(rng, c):
+    """a unit that yields no piece"""
+    kinds = ["comment", "comment", "raw", "if-true", "if-false", "if-else", "set"]
+    if c["line_statement_prefix"]:
+        kinds += ["ls", "ls-if", "lc", "lc"]
+    k = rng.choice(kinds)
+    if k == "comment":
+        return k, [("c", rng.choice(["", " ", " c ", "c", " c\nd ", " # "]))]
+    if k == "raw":
+        return k, [("rawb", ""), ("rawe", "")]
+    if k == "if-true":
+        return k, [("b", "if true"), ("b", "endif")]
+    if k == "if-false":
+        return k, [("b", "if false"), ("t", "junk"), ("b", "endif")]
+    if k == "if-else":
+        return k, [("b", "if true"), ("b", "else"), ("t", "junk"), ("b", "endif")]
+    if k == "set":
+        return k, [("b", "set z = 1")]
+    if k == "ls":
+        return k, [("ls", "set z = 1")]
+    if k == "ls-if":
+        return k, [("ls", "if true"), ("ls", "endif")]
+    return k, [("lc", rng.choice([" note", "", " {{ x }}"]))]
+
+
+SIGNS_L = {"b": ["", "-", "+"], "v": ["", "-", "+"], "c": ["", "-", "+"], "rawb": ["", "-", "+"], "rawe": ["", "-", "+"],
+           "ls": ["", "-"], "lc": ["", "-"], "t": [""]}
+SIGNS_R = {"b": ["", "-", "+"], "v": ["", "-"], "c": ["", "-", "+"], "rawb": ["", "-"], "rawe": ["", "-", "+"],
+           "ls": [""], "lc": [""], "t": [""]}
+
+
+def pick_sign(rng, allowed):
+    r = rng.random()
+    if r < 0.45 and "-" in allowed:
+        return "-"
+    if r < 0.55 and "+" in allowed:
+        return "+"
+    return ""
+
+
+def render_elem(c, el, l, r, pad):
+    k, inner = el
+    if k == "b":
+        return f"{c['block_start_string']}{l}{pad}{inner}{pad}{r}{c['block_end_string']}"
+    if k == "v":
+        return f"{c['variable_start_string']}{l} {inner} {r}{c['variable_end_string']}"
+    if k == "c":
+        return f"{c['comment_start_string']}{l}{inner}{r}{c['comment_end_string']}"
+    if k == "rawb":
+        return f"{c['block_start_string']}{l} raw {r}{c['block_end_string']}"
+    if k == "rawe":
+        return f"{c['block_start_string']}{l} endraw {r}{c['block_end_string']}"
+    if k == "ls":
+        return f"{c['line_statement_prefix']}{l} {inner}"
+    if k == "lc":
+        return f"{c['line_comment_prefix']}{l}{inner}"
+    return inner
+
+
+def assemble(c, elems, gaps, signs, pad=" "):
+    """elements with their signs, whitespace runs between them; line statements / comments get the line breaks they need"""
+    out = []
+    n = len(elems)
+    gaps = list(gaps)
+    for i, el in enumerate(elems):
+        if el[0] == "ls" and i > 0 and "\n" not in gaps[i]:
+            gaps[i] = gaps[i] + "\n"
+        if el[0] in ("ls", "lc") and i + 1 < n and "\n" not in gaps[i + 1]:
+            gaps[i + 1] = "\n" + gaps[i + 1]
+    for i, el in enumerate(elems):
+        out.append(gaps[i])
+        out.append(render_elem(c, el, signs[i][0], signs[i][1], pad))
+    out.append(gaps[n])
+    return "".join(out)
+
+
+def random_template(rng, c):
+    cname = rng.choice(list(CARRIERS))
+    elems = list(CARRIERS[cname])
+    mats = []
+    for _ in range(rng.choice([0, 1, 1, 2, 2, 3])):
+        k, unit = nothing_material(rng, c)
+        for _try in range(8):
+            at = rng.randrange(len(elems) + 1)
+            if at > 0 and elems[at - 1][0] == "rawb":
+                continue
+            elems[at:at] = unit
+            mats.append(k)
+            break
+    n = len(elems)
+    gaps = [("" if rng.random() < 0.3 else rng.choice(GAPS)) for _ in range(n + 1)]
+    signs = [[pick_sign(rng, SIGNS_L[e[0]]), pick_sign(rng, SIGNS_R[e[0]])] for e in elems]
+    if rng.random() < 0.7:
+        # make every whitespace run removable: a '-' on one of the two tag sides next to it
+        for g in range(n + 1):
+            if not gaps[g]:
+                continue
+            sides = []
+            if g > 0 and "-" in SIGNS_R[elems[g - 1][0]]:
+                sides.append((g - 1, 1))
+            if g < n and "-" in SIGNS_L[elems[g][0]]:
+                sides.append((g, 0))
+            if not sides:
+                gaps[g] = ""
+                continue
+            i, side = rng.choice(sides)
+            signs[i][side] = "-"
+    return assemble(c, elems, gaps, signs, rng.choice(["", " ", " "])), cname, mats
+
+
+def small_templates(c):
+    """carrier next to one unit of nothing-material, every whitespace run and every sign pair at the border"""
+    units = [("comment", [("c", " c ")]), ("comment-empty", [("c", "")]), ("raw", [("rawb", ""), ("rawe", "")]),
+             ("if-true", [("b", "if true"), ("b", "endif")]), ("set", [("b", "set z = 1")])]
+    if c["line_statement_prefix"]:
+        units += [("ls", [("ls", "set z = 1")]), ("lc", [("lc", " note")])]
+    for cname in ("var", "cond", "set", "macro"):
+        car = CARRIERS[cname]
+        for uname, unit in units:
+            for left in (True, False):
+                elems = (unit + car) if left else (car + unit)
+                b = len(unit) if left else len(car)          # the border gap index
+                for w in [""] + GAPS[:6]:
+                    for sr in SIGNS_R[elems[b - 1][0]]:
+                        for sl in SIGNS_L[elems[b][0]]:
+                            gaps = [""] * (len(elems) + 1)
+                            gaps[b] = w
+                            signs = [["", ""] for _ in elems]
+                            signs[b - 1][1] = sr
+                            signs[b][0] = sl
+                            yield assemble(c, elems, gaps, signs), cname, [uname]
+        # whitespace before / after the carrier alone, and inside it
+        for w in GAPS[:6]:
+            for g in range(len(car) + 1):
+                for sr in (SIGNS_R[car[g - 1][0]] if g > 0 else [""]):
+                    for sl in (SIGNS_L[car[g][0]] if g < len(car) else [""]):
+                        gaps = [""] * (len(car) + 1)
+                        gaps[g] = w
+                        signs = [["", ""] for _ in car]
+                        if g > 0:
+                            signs[g - 1][1] = sr
+                        if g < len(car):
+                            signs[g][0] = sl
+                        yield assemble(c, car, gaps, signs), cname, []
+
+
+def enc_value(vals, i):
+    v = vals[i]
+    return [Atom("str"), v] if isinstance(v, str) else [Atom("obj"), i, str(v)]
+
+
+def run_tpl(ctx, res, jinja2, NativeEnvironment):
+    rng = ctx.rng("tpl")
+    vals = tpl_values(jinja2)
+    boost = 3 if (ctx.gen_changed or ctx.proof_broken or ctx.tie_broken) else 1
+    n_random = ctx.pick(110, 1200) * boost
+    stride = ctx.pick(9, 1)
+    stats = {"templates": 0, "renders": 0, "oom": 0, "syntax-error": 0, "documented": {"value": 0, "none": 0, "lit": 0, "text": 0},
+             "by_config": {}, "by_carrier": {}, "by_material": {}, "piece_counts": {}, "single_value_nonliteral": 0}
+    distinct, samples = set(), []
+    piece_diffs = []
+    concrete = 0
+    for cname in TPL_CONFIGS:
+        c = lc.CONFIGS[cname]
+        tpls = [t for k, t in enumerate(small_templates(c)) if (k + ctx.seed) % stride == 0]
+        tpls += [random_template(rng, c) for _ in range(n_random)]
+        seen, uniq = set(), []
+        for t in tpls:
+            if t[0] not in seen:
+                seen.add(t[0])
+                uniq.append(t)
+        env = NativeEnvironment(**c)
+        aenv = NativeEnvironment(**c, enable_async=True)
+        reqs, meta = [], []
+        for src, car, mats in uniq:
+            for _ in range(2):
+                xi = rng.randrange(N_NONLITERAL) if rng.random() < 0.75 else rng.randrange(len(vals))
+                wi = rng.randrange(len(vals))
+                cb = rng.random() < 0.7
+                reqs.append([Atom("native-tpl"), lc.enc_cfg(c), src, [["x", enc_value(vals, xi)], ["w", enc_value(vals, wi)]],
+                             [["c", cb]]])
+                meta.append((src, car, mats, xi, wi, cb))
+        replies = core.driver_batch(reqs)
+        compiled = {}
+        for (src, car, mats, xi, wi, cb), rep in zip(meta, replies):
+            tag = str(rep[0])
+            if tag != "ok":
+                stats["oom" if tag == "oom" else "syntax-error"] += 1
+                continue
+            mpieces, mres = rep[1], rep[2]
+            data = {"x": vals[xi], "w": vals[wi], "c": cb}
+            case = {"kind": "tpl", "config": cname, "src": src, "x": xi, "w": wi, "c": cb}
+            if src not in compiled:
+                try:
+                    compiled[src] = (env.from_string(src), aenv.from_string(src))
+                except Exception as e:  # noqa
+                    compiled[src] = e
+                stats["templates"] += 1
+                stats["by_config"][cname] = stats["by_config"].get(cname, 0) + 1
+                stats["by_carrier"][car] = stats["by_carrier"].get(car, 0) + 1
+                for m in mats:
+                    stats["by_material"][m] = stats["by_material"].get(m, 0) + 1
+            if isinstance(compiled[src], Exception):
+                e = compiled[src]
+                res.violate("C34:tpl:compile", f"NativeEnvironment({cname}) cannot load {src!r}: {type(e).__name__}: {e}; the template "
+                            f"model gives the pieces {core.sx(mpieces)}", dict(case, how="compile"))
+                concrete += 1
+                continue
+            t, at = compiled[src]
+            # documented result of the model's pieces
+            if str(mres) == "none":
+                exp = ("none",)
+            elif str(mres[0]) == "value":
+                exp = ("value", vals[int(mres[1])])
+            else:
+                exp = lit(mres[1])
+            stats["documented"][exp[0]] += 1
+            stats["piece_counts"][len(mpieces)] = stats["piece_counts"].get(len(mpieces), 0) + 1
+            if exp[0] == "value" and int(mres[1]) < N_NONLITERAL:
+                stats["single_value_nonliteral"] += 1
+            distinct.add((cname, src, xi, wi, cb))
+            # (1) the pieces the compiled root function yields = the model's pieces (strings by value, others by identity)
+            try:
+                got_pieces = list(t.root_render_func(t.new_context(dict(data))))
+                same_pieces = len(got_pieces) == len(mpieces) and all(
+                    (isinstance(g, str) and g == m[1]) if str(m[0]) == "str" else (g is vals[int(m[1])])
+                    for g, m in zip(got_pieces, mpieces))
+            except Exception as e:  # noqa
+                got_pieces, same_pieces = f"raised:{type(e).__name__}: {e}", False
+            if not same_pieces:
+                piece_diffs.append((dict(case, how="pieces"), f"NativeEnvironment({cname}) {src!r} with x={vals[xi]!r} w={vals[wi]!r} c={cb}: "
+                                    f"the root render function yields {got_pieces!r}; the template model's pieces are {core.sx(mpieces)}"))
+            # (2) the three ways to render return the documented result of those pieces
+            for how in ("render", "render_async", "async-env-render"):
+                try:
+                    if how == "render":
+                        got = t.render(**data)
+                    elif how == "render_async":
+                        got = asyncio.run(at.render_async(**data))
+                    else:
+                        got = at.render(**data)
+                    ok = check_result(got, exp)
+                except Exception as e:  # noqa
+                    got, ok = f"raised:{type(e).__name__}: {e}", False
+                stats["renders"] += 1
+                if not ok:
+                    concrete += 1
+                    res.violate(f"C34:tpl:{how}:{exp[0]}", f"NativeEnvironment({cname}) {how} of {src!r} with x={vals[xi]!r} w={vals[wi]!r} "
+                                f"c={cb} gives {got!r}; documented {exp!r} (pieces {core.sx(mpieces)})", dict(case, how=how))
+            if len(samples) < 3 and exp[0] == "value" and len(mats) >= 2 and all(x["config"] != cname for x in samples):
+                samples.append({"config": cname, "src": src, "x": repr(vals[xi]), "documented": repr(exp)})
+    if piece_diffs:
+        # a piece list that differs from the model's: with a wrong result above it is explained by a concrete input;
+        # alone it is a broken correspondence (an empty-string piece is a difference even where the result happens to agree)
+        for case, what in piece_diffs[:3]:
+            res.violate("C34:tpl:pieces", what + f" ({len(piece_diffs)} such cases)", case, no_input=(concrete == 0))
+    stats["piece_differences"] = len(piece_diffs)
+    stats["distinct"] = len(distinct)
+    stats["samples"] = samples
+    stats["rule"] = (f"templates = one carrier ({', '.join(CARRIERS)}) + 0-3 units that yield nothing (comments, empty raw blocks, "
+                     "if true/endif, dead branches, set z = 1, line statements, line comments) at random positions, a whitespace run "
+                     "(or none) between all tags, '-'/'+'/no sign on every tag side (70%: every run made removable), plus the "
+                     f"systematic family carrier x unit x side x whitespace run x sign pair (every {stride}th in this tier), under "
+                     f"{len(TPL_CONFIGS)} lexer configurations, x/w from 27 values (75% from the 16 whose str() does not evaluate back to the "
+                     "object); non-trivial = the Lean template model accepts it (not out-of-model / syntax error); compared: piece list of "
+                     "the root render function, render, render_async, render in an async environment")
+    return stats
+
+
 def replay(ctx, case):
-    return case["case"]
+    c = case["case"]
+    if c.get("kind") != "tpl":
+        return c
+    jinja2 = core.import_jinja()
+    from jinja2.nativetypes import NativeEnvironment
+    vals = tpl_values(jinja2)
+    cfg = lc.CONFIGS[c["config"]]
+    data = {"x": vals[c["x"]], "w": vals[c["w"]], "c": c["c"]}
+    rep = core.driver_batch([[Atom("native-tpl"), lc.enc_cfg(cfg), c["src"],
+                              [["x", enc_value(vals, c["x"])], ["w", enc_value(vals, c["w"])]], [["c", c["c"]]]]])[0]
+    out = {"model": core.sx(rep), "data": repr(data)}
+    try:
+        t = NativeEnvironment(**cfg).from_string(c["src"])
+        at = NativeEnvironment(**cfg, enable_async=True).from_string(c["src"])
+        out["pieces"] = repr(list(t.root_render_func(t.new_context(dict(data)))))
+        out["render"] = repr(t.render(**data))
+        out["render_async"] = repr(asyncio.run(at.render_async(**data)))
+        out["async-env-render"] = repr(at.render(**data))
+    except Exception as e:  # noqa
+        out["raised"] = f"{type(e).__name__}: {e}"
+    return out
